@@ -156,6 +156,20 @@ func P(site int, accs ...Acc) {
 	park(Pending{Kind: 1, Site: site, Accs: accs})
 }
 
+// L stands in front of a statement of an AUXILIARY file (any file of the package other than the one
+// the property is anchored in) that announces no shared access: it is counted, so that a loop that
+// does not terminate is noticed, and is never a scheduling point (such a statement commutes with
+// every statement of every other thread).
+func L(site int) {
+	if cur == nil || running < 0 {
+		return
+	}
+	localSteps++
+	if localSteps > 50_000_000 {
+		panic("verifrt: 5e7 local statements without a shared access (loop does not terminate?)")
+	}
+}
+
 // Lock parks until the scheduler grants the mutex, then takes it.
 func Lock(m *MutexState) {
 	if cur == nil || running < 0 {
